@@ -7,7 +7,7 @@ use crate::gen::{workspace, GenCfg};
 use crate::model::{DefId, Model};
 use crate::runner::*;
 use crate::spec::*;
-use proptest::strategy::Strategy;
+use proptest::prelude::*;
 use serde_json::Value;
 use std::collections::BTreeMap;
 use std::path::Path;
@@ -33,7 +33,7 @@ pub fn with_probes(ws: &WorkspaceSpec, names: usize) -> WorkspaceSpec {
         if f.loc.is_plugin() || f.loc.is_third_party() {
             continue;
         }
-        f.items.push(Item::Test(TestSpec { suffix: 99, params: (0..names).collect(), usefixtures: vec![], indirect: vec![], is_async: false, body_uses: vec![] }));
+        f.items.push(Item::Test(TestSpec { suffix: 99, params: (0..names).collect(), usefixtures: vec![], indirect: vec![], is_async: false, body_uses: vec![], defaulted: vec![] }));
     }
     w
 }
@@ -41,15 +41,39 @@ pub fn with_probes(ws: &WorkspaceSpec, names: usize) -> WorkspaceSpec {
 #[derive(Clone, Debug, serde::Serialize, serde::Deserialize)]
 pub struct Case {
     pub ws: WorkspaceSpec,
+    /// documents (bit = file index mod 16) closed again before the features are compared: closing
+    /// drops cached text, the features must still agree with each other
+    #[serde(default)]
+    pub close_mask: u16,
 }
 
 pub fn check_ws(ws0: &WorkspaceSpec, info: &mut CaseInfo) -> Outcome {
+    check_ws_closed(ws0, 0, info)
+}
+
+pub fn check_ws_closed(ws0: &WorkspaceSpec, close_mask: u16, info: &mut CaseInfo) -> Outcome {
     let ws = with_probes(ws0, cfg().names);
     let m = Model::new(&ws);
     let db = build_db(&m, &ws.order());
+    if close_mask != 0 {
+        let mut n = 0;
+        for fi in 0..ws.files.len() {
+            if (close_mask >> (fi % 16)) & 1 == 1 {
+                db.cleanup_file_cache(Path::new(&m.path(fi)));
+                n += 1;
+            }
+        }
+        if n > 0 {
+            info.classes.push("documents closed before the comparison".into());
+        }
+    }
     let mut known: Vec<String> = Vec::new();
     let mut detail = None;
     for (fi, r) in m.rendered.iter().enumerate() {
+        if close_mask != 0 && (close_mask >> (fi % 16)) & 1 == 1 {
+            // a closed in-memory document has no text any more: clients do not ask about positions in it
+            continue;
+        }
         let path = m.path(fi);
         let p = Path::new(&path);
         let avail = db.get_available_fixtures(p);
@@ -199,8 +223,8 @@ pub fn run(ctx: &Ctx) {
         }
     }
     ctx.set_extra("corpus_documents_compared", serde_json::json!(compared));
-    ctx.run_prop("lib", ctx.tier.pick(16_000, 800_000), 16, || workspace(cfg()).prop_map(|ws| Case { ws }), |c, info| check_ws(&c.ws, info));
-    ctx.run_prop_shrink("lsp", ctx.tier.pick(100, 2500), 8, 150, || workspace(lsp_cfg()).prop_map(|ws| Case { ws }), |c, info| {
+    ctx.run_prop("lib", ctx.tier.pick(16_000, 800_000), 16, || (workspace(cfg()), prop_oneof![2 => Just(0u16), 1 => proptest::num::u16::ANY]).prop_map(|(ws, close_mask)| Case { ws, close_mask }), |c, info| check_ws_closed(&c.ws, c.close_mask, info));
+    ctx.run_prop_shrink("lsp", ctx.tier.pick(100, 2500), 8, 150, || workspace(lsp_cfg()).prop_map(|ws| Case { ws, close_mask: 0 }), |c, info| {
         crate::props::lsp_tiers::c05_features(ctx, &c.ws, lsp_cfg().names, info)
     });
 }
@@ -223,7 +247,7 @@ pub fn judge(ctx: &Ctx, sub: &str, case: &Value) -> Option<Outcome> {
         }
         "lib" => {
             let c: Case = from_case(case)?;
-            Some(check_ws(&c.ws, &mut info))
+            Some(check_ws_closed(&c.ws, c.close_mask, &mut info))
         }
         _ => None,
     }
